@@ -512,6 +512,15 @@ def build():
         if f:
             leaf["format"] = f
         contexts("enum", "%s/%s enum" % (t, f or "-"), leaf, "AuxEnum%d" % k)
+    # number and boolean enums
+    for (t, f) in [("number", ""), ("number", "float")]:
+        k += 1
+        leaf = {"type": t, "enum": [0.5, 2.5]}
+        if f:
+            leaf["format"] = f
+        contexts("enum", "%s/%s enum" % (t, f or "-"), leaf, "AuxEnum%d" % k)
+    k += 1
+    contexts("enum", "boolean enum", {"type": "boolean", "enum": [True]}, "AuxEnum%d" % k)
     # string formats checked by Validate through the registry (string-backed strfmt types)
     for fmt_name, extra in [("uuid", {}), ("email", {"maxLength": 4}), ("hostname", {"enum": ["ab", "n/a"]}), ("ipv4", {"minLength": 1}), ("uri", {"enum": ["x"]})]:
         k += 1
